@@ -993,8 +993,8 @@ def run(ctx):
     ctx.enumerate(ctx.p_dur_checked, (c for c in enum_durations(ctx) if c["src"] == "durations-huge"),
                   name="huge durations on the overflow-checked build", exhaustive=True)
     ctx.enumerate(ctx.p_corrupt, enum_corruptions(ctx), name="single-character corruptions of valid literals", exhaustive=ctx.thorough())
-    ctx.forall(ctx.p_lit, ctx.scale(25000, 600000))
-    ctx.forall(ctx.p_val, ctx.scale(12000, 300000))
+    ctx.forall(ctx.p_lit, ctx.scale(40000, 800000))
+    ctx.forall(ctx.p_val, ctx.scale(20000, 400000))
 
 
 if __name__ == "__main__":
